@@ -6,6 +6,7 @@ import (
 	"fmt"
 	"io"
 	"net"
+	"runtime"
 	"sync"
 	"time"
 
@@ -255,18 +256,39 @@ func execPeer(p *PeerPlan, col *kernel.Collector) []kernel.Violation {
 			col.Tick()
 			col.Inc("fault_frame_" + f.Kind)
 			var err error
+			// a frame that only *announces* more than the limit must be refused on the announcement:
+			// what the victim allocates while handling it is measured
+			measured := sessionUp && (f.Kind == "bomb-over" || f.Kind == "bomb-huge-claim")
+			var m0 runtime.MemStats
+			var bomb []byte
+			if measured {
+				// (the attacker's own work of preparing the frame is not the victim's)
+				if f.Kind == "bomb-over" {
+					bomb = snappyOf(maxUint24+1+f.A, 0)
+				} else {
+					bomb = append([]byte{0xff, 0xff, 0xff, 0xff, 0x0f}, snappyOf(100, 1)[1:]...)
+				}
+				runtime.GC()
+				runtime.ReadMemStats(&m0)
+			}
 			switch f.Kind {
 			case "honest":
 				err = ap.WriteMsg(16+uint64(f.A%16), bytes.Repeat([]byte{byte(f.A)}, 10+f.A*8))
 			case "honest-big":
 				err = ap.WriteMsg(16+uint64(f.A%16), bytes.Repeat([]byte{byte(f.A)}, 1<<20))
 			case "bomb-over":
-				err = ap.WriteRaw(16+uint64(f.A%16), snappyOf(maxUint24+1+f.A, 0))
+				if bomb == nil {
+					bomb = snappyOf(maxUint24+1+f.A, 0)
+				}
+				err = ap.WriteRaw(16+uint64(f.A%16), bomb)
 			case "bomb-at-limit":
 				err = ap.WriteRaw(16+uint64(f.A%16), snappyOf(maxUint24-(f.A%2), 0))
 			case "bomb-huge-claim":
 				// a snappy header announcing 4 GiB - 1 followed by very little
-				err = ap.WriteRaw(16+uint64(f.A%16), append([]byte{0xff, 0xff, 0xff, 0xff, 0x0f}, snappyOf(100, 1)[1:]...))
+				if bomb == nil {
+					bomb = append([]byte{0xff, 0xff, 0xff, 0xff, 0x0f}, snappyOf(100, 1)[1:]...)
+				}
+				err = ap.WriteRaw(16+uint64(f.A%16), bomb)
 			case "bad-snappy":
 				err = ap.WriteRaw(16+uint64(f.A%16), rng.Bytes(1+f.A))
 			case "empty":
@@ -292,6 +314,15 @@ func execPeer(p *PeerPlan, col *kernel.Collector) []kernel.Violation {
 				break
 			}
 			time.Sleep(200 * time.Millisecond)
+			if measured {
+				var m1 runtime.MemStats
+				runtime.ReadMemStats(&m1)
+				col.Inc("oversize_claims_allocation_measured")
+				if d := m1.TotalAlloc - m0.TotalAlloc; d > 8<<20 {
+					vs = append(vs, kernel.Violation{Class: "rlpx-oversize-claim-allocated", Detail: fmt.Sprintf("a correctly MACed frame of a few bytes announcing more than the %d-byte limit (%s) made the node allocate %d bytes while handling it", maxUint24, f.Kind, d)})
+					return vs
+				}
+			}
 		}
 	} else {
 		col.Inc("probe_attacker_handshake_refused")
